@@ -188,9 +188,12 @@ func (r *reader) ReadTracks() (err error) {
 				AbsTicks: absTicks,
 			}
 
-			m.GetMetaTempo(&tc.BPM)
-			//fmt.Printf("BPM: %v\n", tc.BPM)
-			r.SMF.tempoChanges = append(r.SMF.tempoChanges, &tc)
+			// a tempo event that can't be decoded (less than 3 data bytes) sets no tempo: with a BPM of 0
+			// every time behind it would be infinite
+			if m.GetMetaTempo(&tc.BPM) {
+				//fmt.Printf("BPM: %v\n", tc.BPM)
+				r.SMF.tempoChanges = append(r.SMF.tempoChanges, &tc)
+			}
 		}
 
 		r.log("add message %v to track %v", m, tr)
